@@ -469,7 +469,7 @@ func (h *harness) replayComb(c *CombCase) {
 }
 
 func (h *harness) combinators() {
-	n := h.run.Scale(40000, 500000)
+	n := h.run.Scale(80000, 500000)
 	type item struct {
 		c    *CombCase
 		rich bool
